@@ -1,56 +1,68 @@
 /-
-  SfProofs.Mpc2kImage — `Sf.Mpc2k.parse` on the images the MPC2K writer leaves in the store.
+  SfProofs.Mpc2kImage — `Sf.Mpc2k.parse` on the images the MPC2K writer leaves in the store.  The lemmas are stated for
+  the writer `fmtQ q` with an arbitrary rate-field rule `q` (the current saturating rule `quant`, and the wrap `quantOld`
+  of before the repair of KF-RATE16-WRAP).
 -/
 import SfModel.Mpc2k
 import SfProofs.Small2Session
 namespace Sf.Mpc2k
 open Sf Sf.Small2
 
-theorem lawful (c : Cfg) (hn : c.name.length = 17) : Lawful (fmt c) where
-  hlen := by intro f; simp [fmt, hdr, hn]
+theorem lawfulQ (q : Nat → Nat) (c : Cfg) (hn : c.name.length = 17) : Lawful (fmtQ q c) where
+  hlen := by intro f; simp [fmtQ, hdrQ, hn]
   hindep := by intro n f g; rfl
+
+theorem lawful (c : Cfg) (hn : c.name.length = 17) : Lawful (fmt c) := lawfulQ quant c hn
 
 theorem preHtk_0104 (x y : Nat) (b cc : List Byte) : preHtk [1, 4, x, y] b cc = some (.fmt 0x210000) := by
   simp [preHtk, rules, List.find?]
 
 /-- the header a `calc_length` rewrite puts in front of `D` audio bytes -/
-theorem calcHdr_eq (c : Cfg) (D : Nat) :
-    calcHdr (fmt c) (42 + D) = hdr c { frames := ((D / (2 * c.ch) : Nat) : Int), filelength := ((42 + D : Nat) : Int), datalength := (D : Nat) } := by
-  show hdr c _ = hdr c _
+theorem calcHdrQ_eq (q : Nat → Nat) (c : Cfg) (D : Nat) :
+    calcHdr (fmtQ q c) (42 + D) = hdrQ (q c.sr) c { frames := ((D / (2 * c.ch) : Nat) : Int), filelength := ((42 + D : Nat) : Int), datalength := (D : Nat) } := by
+  show hdrQ _ c _ = hdrQ _ c _
   have e : (((42 + D : Nat) : Int) - 42) = ((D : Nat) : Int) := by push_cast; omega
   have : (((42 + D : Nat) : Int) - 42) / ((2 * c.ch : Nat) : Int) = ((D / (2 * c.ch) : Nat) : Int) := by
     rw [e, ← Int.natCast_ediv]
-  unfold hdr
-  simp only [fmt, this]
+  unfold hdrQ
+  simp only [fmtQ, this]
 
-theorem guess_image (c : Cfg) (hn : c.name.length = 17) (f : Fields) (data : List Byte) :
-    guess (hdr c f ++ data) = some (.fmt 0x210000) := by
+theorem calcHdr_eq (c : Cfg) (D : Nat) :
+    calcHdr (fmt c) (42 + D) = hdr c { frames := ((D / (2 * c.ch) : Nat) : Int), filelength := ((42 + D : Nat) : Int), datalength := (D : Nat) } :=
+  calcHdrQ_eq quant c D
+
+theorem guess_image (q : Nat) (c : Cfg) (hn : c.name.length = 17) (f : Fields) (data : List Byte) :
+    guess (hdrQ q c f ++ data) = some (.fmt 0x210000) := by
   obtain ⟨x, y, rest, hname⟩ : ∃ x y rest, c.name = x :: y :: rest := by
     match h : c.name with
     | [] => rw [h] at hn; cases hn
     | [_] => rw [h] at hn; cases hn
     | x :: y :: rest => exact ⟨x, y, rest, rfl⟩
-  unfold guess hdr
+  unfold guess hdrQ
   rw [hname]
   simp only [List.cons_append, List.nil_append, List.take_succ_cons, List.take_zero, preHtk_0104]
 
-theorem le16_sr (sr : Nat) : ofLE (le16 (sr : Nat)) = quant sr := by
-  rw [ofLE_le16, wrapU_nat_mod]; rfl
+theorem le16_q (q : Nat) : ofLE (le16 (q : Nat)) = q % 65536 := by
+  rw [ofLE_le16, wrapU_nat_mod]
+
+theorem quant_field (sr : Nat) : quant sr % 65536 = quant sr := by unfold quant; omega
+
+theorem quant_pos (sr : Nat) (h : 1 ≤ sr) : quant sr ≠ 0 := by unfold quant; omega
 
 /-- mpc2k_read_header on `header ++ data` -/
-theorem readHeader_image (c : Cfg) (hwf : c.wf) (f : Fields) (data : List Byte) (hq : quant c.sr ≠ 0) :
-    readHeader (hdr c f ++ data) =
-      .ok { ch := c.ch, fmt := 0x210002, sr := quant c.sr, frames := data.length / (2 * c.ch) } := by
+theorem readHeader_image (q : Nat) (c : Cfg) (hwf : c.wf) (f : Fields) (data : List Byte) (hq : q % 65536 ≠ 0) :
+    readHeader (hdrQ q c f ++ data) =
+      .ok { ch := c.ch, fmt := 0x210002, sr := q % 65536, frames := data.length / (2 * c.ch) } := by
   obtain ⟨hch, _, _, hn⟩ := hwf
-  have hlen : (hdr c f ++ data).length = 42 + data.length := by simp [hdr, hn]; omega
-  have e : hdr c f ++ data = [1, 4] ++ (c.name ++ ([100, 0, (c.ch - 1) % 2] ++ ((le32 0 ++ le32 f.frames ++ le32 f.frames ++ le32 f.frames) ++
-      ([0, 1] ++ (le16 c.sr ++ data))))) := by simp [hdr]
+  have hlen : (hdrQ q c f ++ data).length = 42 + data.length := by simp [hdrQ, hn]; omega
+  have e : hdrQ q c f ++ data = [1, 4] ++ (c.name ++ ([100, 0, (c.ch - 1) % 2] ++ ((le32 0 ++ le32 f.frames ++ le32 f.frames ++ le32 f.frames) ++
+      ([0, 1] ++ (le16 q ++ data))))) := by simp [hdrQ]
   unfold readHeader
   rw [hlen, e]
   simp only [cut_append [1, 4] _ 2 rfl, cut_append [0, 1] _ 2 rfl, cut_append c.name _ 17 hn, cut_append [100, 0, (c.ch - 1) % 2] _ 3 rfl,
-    cut_append (le32 0 ++ le32 f.frames ++ le32 f.frames ++ le32 f.frames) _ 16 (by simp), cut_append (le16 (c.sr : Nat)) _ 2 (le16_length _),
-    le16_sr]
-  have hsr : ¬ (quant c.sr < 1) := by omega
+    cut_append (le32 0 ++ le32 f.frames ++ le32 f.frames ++ le32 f.frames) _ 16 (by simp), cut_append (le16 (q : Nat)) _ 2 (le16_length _),
+    le16_q]
+  have hsr : ¬ (q % 65536 < 1) := by omega
   rw [if_neg hsr]
   have hchv : (if ([100, 0, (c.ch - 1) % 2] : List Byte).getD 2 0 ≠ 0 then 2 else 1) = c.ch := by
     rcases hch with h | h <;> rw [h] <;> decide
@@ -59,25 +71,25 @@ theorem readHeader_image (c : Cfg) (hwf : c.wf) (f : Fields) (data : List Byte) 
   have := framesOf_nat 42 data.length (2 * c.ch) hbw
   rw [show ((42 : Int)) = ((42 : Nat) : Int) from rfl, this]
 
-/-- a rate that is a multiple of 65536 is stored as 0: validate_sfinfo refuses the file -/
-theorem readHeader_rate0 (c : Cfg) (hwf : c.wf) (f : Fields) (data : List Byte) (hq : quant c.sr = 0) :
-    readHeader (hdr c f ++ data) = .err := by
+/-- a rate field of 0: validate_sfinfo refuses the file -/
+theorem readHeader_rate0 (q : Nat) (c : Cfg) (hwf : c.wf) (f : Fields) (data : List Byte) (hq : q % 65536 = 0) :
+    readHeader (hdrQ q c f ++ data) = .err := by
   obtain ⟨_, _, _, hn⟩ := hwf
-  have e : hdr c f ++ data = [1, 4] ++ (c.name ++ ([100, 0, (c.ch - 1) % 2] ++ ((le32 0 ++ le32 f.frames ++ le32 f.frames ++ le32 f.frames) ++
-      ([0, 1] ++ (le16 c.sr ++ data))))) := by simp [hdr]
+  have e : hdrQ q c f ++ data = [1, 4] ++ (c.name ++ ([100, 0, (c.ch - 1) % 2] ++ ((le32 0 ++ le32 f.frames ++ le32 f.frames ++ le32 f.frames) ++
+      ([0, 1] ++ (le16 q ++ data))))) := by simp [hdrQ]
   unfold readHeader
   rw [e]
   simp only [cut_append [1, 4] _ 2 rfl, cut_append [0, 1] _ 2 rfl, cut_append c.name _ 17 hn, cut_append [100, 0, (c.ch - 1) % 2] _ 3 rfl,
-    cut_append (le32 0 ++ le32 f.frames ++ le32 f.frames ++ le32 f.frames) _ 16 (by simp), cut_append (le16 (c.sr : Nat)) _ 2 (le16_length _),
-    le16_sr, hq]
+    cut_append (le32 0 ++ le32 f.frames ++ le32 f.frames ++ le32 f.frames) _ 16 (by simp), cut_append (le16 (q : Nat)) _ 2 (le16_length _),
+    le16_q, hq]
   rfl
 
-theorem parse_image (c : Cfg) (hwf : c.wf) (f : Fields) (data : List Byte) :
-    parse (hdr c f ++ data) = readHeader (hdr c f ++ data) := by
+theorem parse_image (q : Nat) (c : Cfg) (hwf : c.wf) (f : Fields) (data : List Byte) :
+    parse (hdrQ q c f ++ data) = readHeader (hdrQ q c f ++ data) := by
   have hn := hwf.2.2.2
-  have hlen : (hdr c f ++ data).length = 42 + data.length := by simp [hdr, hn]; omega
+  have hlen : (hdrQ q c f ++ data).length = 42 + data.length := by simp [hdrQ, hn]; omega
   unfold parse
-  rw [guess_image c hn, hlen, if_neg (by omega)]
+  rw [guess_image q c hn, hlen, if_neg (by omega)]
   simp only []
   rw [if_neg (by omega)]
 
